@@ -284,7 +284,44 @@ func rawField(b []byte) []byte {
 	return out
 }
 
+// alignmentBytes: positions inside an encoded BlockRef that no reader looks at (alignment padding): changing them changes the
+// bytes a signature covers, but none of the fields and not the length
+func alignmentBytes(header []byte) []int {
+	ref := protocol.BlockRefReader(header)
+	if !ref.IsValid() {
+		return nil
+	}
+	same := func(b []byte) bool {
+		r := protocol.BlockRefReader(b)
+		return r.IsValid() && r.MessageType() == ref.MessageType() && r.InstanceId() == ref.InstanceId() && r.BlockHeight() == ref.BlockHeight() &&
+			r.View() == ref.View() && string(r.BlockHash()) == string(ref.BlockHash())
+	}
+	var out []int
+	for i := range header {
+		c := append([]byte{}, header...)
+		c[i] ^= 0xEE
+		if same(c) {
+			out = append(out, i)
+		}
+	}
+	return out
+}
+
+var paddedCalls int
+
+// paddedSigned: a non-canonical encoding of the header, signed as sent - alternately trailing bytes after the last field and
+// non-zero alignment bytes inside a BlockRef (same length, same fields)
 func (a *adversary) paddedSigned(signer primitives.MemberId, height uint64, header []byte, pad int) (hdr []byte, sender []byte) {
+	paddedCalls++
+	if al := alignmentBytes(header); len(al) > 0 && paddedCalls%2 == 0 {
+		hdr = append([]byte{}, header...)
+		for _, i := range al {
+			hdr[i] = 0xEE
+		}
+		sig := a.cl.ring.sign(signer, height, hdr)
+		sender = (&protocol.SenderSignatureBuilder{MemberId: signer, Signature: sig}).Build().Raw()
+		return
+	}
 	hdr = append(append([]byte{}, header...), make([]byte, pad)...)
 	for i := len(header); i < len(hdr); i++ {
 		hdr[i] = 0xEE
